@@ -4,9 +4,12 @@ import (
 	"bytes"
 	"fmt"
 	"io"
+	"regexp"
 	"runtime"
 	"runtime/debug"
+	"sort"
 	"strings"
+	"syscall"
 	"time"
 
 	"seehuhn.de/go/pdf"
@@ -304,6 +307,8 @@ type caseResult struct {
 	Status     string    `json:"status"` // ok, panic, timeout, slow, alloc, leak
 	Millis     float64   `json:"ms"`
 	Alloc      uint64    `json:"alloc"`
+	CPUMillis  float64   `json:"cpu_ms"`
+	Leaked     string    `json:"leaked,omitempty"`
 	GorBefore  int       `json:"g0"`
 	GorAfter   int       `json:"g1"`
 	Panic      string    `json:"panic,omitempty"`
@@ -318,6 +323,7 @@ type caseResult struct {
 // corpus (typically 2-50 ms and 1-7 MB of cumulative allocation for a 12-20 kB
 // input on an idle machine; the maxima seen in a run are written to
 // stats.json: measured_max_ms, measured_max_alloc_bytes).
+// timeBudget bounds the CPU time (user + system) of one case.
 func timeBudget(n int) time.Duration {
 	return 3000*time.Millisecond + time.Duration(n)*150*time.Microsecond
 }
@@ -329,40 +335,117 @@ func allocBudget(n int) uint64 {
 	return 512<<20 + uint64(n)*16*1024
 }
 
-const hangTimeout = 10 * time.Second
+// Time verdicts are based on the CPU time of this process (user + system),
+// which one case at a time consumes: the load of the machine does not enter.
+// The wall clock is only a generous guard against a case that blocks without
+// using the CPU.
+const (
+	hangWall     = 90 * time.Second // blocked (or starved) for this long: a suspect
+	settleWall   = 20 * time.Second // how long leftover goroutines may take to finish
+	settleParked = 1500 * time.Millisecond
+)
+
+// hangCPU: a case that has burnt this much CPU without returning is given up.
+func hangCPU(n int) time.Duration { return 2*timeBudget(n) + 3*time.Second }
+
+func cpuNow() time.Duration {
+	var ru syscall.Rusage
+	if err := syscall.Getrusage(syscall.RUSAGE_SELF, &ru); err != nil {
+		return 0
+	}
+	return time.Duration(ru.Utime.Nano() + ru.Stime.Nano())
+}
 
 // goroutineBase is the number of goroutines of an idle process (set once at
 // start-up, after the helper goroutines have been started).
 var goroutineBase = 1
 
-func settleGoroutines(base int) int {
-	g := runtime.NumGoroutine()
-	for i := 0; i < 60 && g > base; i++ {
-		time.Sleep(10 * time.Millisecond)
-		g = runtime.NumGoroutine()
+var gorHeader = regexp.MustCompile(`(?m)^goroutine (\d+) \[([^\],]+)`)
+
+// goroutineStates maps goroutine id to its scheduler state.
+func goroutineStates() map[string]string {
+	buf := make([]byte, 1<<20)
+	n := runtime.Stack(buf, true)
+	res := map[string]string{}
+	for _, m := range gorHeader.FindAllSubmatch(buf[:n], -1) {
+		res[string(m[1])] = string(m[2])
 	}
-	return g
+	return res
 }
 
-// runCase runs f under the watchdog and the meters.  onHang is called (from
-// the watchdog goroutine) if f does not come back; it must not return.
+// settleGoroutines waits until the goroutines which were not there before
+// (ids in [before]) have ended.  It waits on the CONDITION, with a generous
+// deadline: a slow scheduler is not a leak.  It gives up early only when every
+// extra goroutine is parked (blocked on a channel, a pipe, a lock ...) in two
+// samples a while apart and none is runnable, running or in a system call -
+// nothing is left that could still release them.
+func settleGoroutines(before map[string]string) (int, string) {
+	deadline := time.Now().Add(settleWall)
+	var parkedSince time.Time
+	var lastExtra string
+	for {
+		now := goroutineStates()
+		var extra []string
+		busy := false
+		for id, st := range now {
+			if _, ok := before[id]; ok {
+				continue
+			}
+			extra = append(extra, id+":"+st)
+			switch st {
+			case "runnable", "running", "syscall", "sleep", "GC assist wait", "GC worker (idle)", "GC sweep wait", "GC scavenge wait", "finalizer wait", "force gc (idle)":
+				busy = true
+			}
+		}
+		if len(extra) == 0 {
+			return len(now), ""
+		}
+		sort.Strings(extra)
+		key := strings.Join(extra, " ")
+		if busy || key != lastExtra {
+			parkedSince = time.Time{}
+		} else if parkedSince.IsZero() {
+			parkedSince = time.Now()
+		}
+		lastExtra = key
+		if (!parkedSince.IsZero() && time.Since(parkedSince) > settleParked) || time.Now().After(deadline) {
+			return len(now), key
+		}
+		time.Sleep(20 * time.Millisecond)
+	}
+}
+
 func runCase(res *caseResult, f func(st *walkStats), onHang func()) {
 	runtime.GC()
-	g0 := settleGoroutines(goroutineBase)
-	if g0 > goroutineBase {
-		goroutineBase = g0
-	}
+	before := goroutineStates()
+	g0 := len(before)
 	var m0, m1 runtime.MemStats
 	runtime.ReadMemStats(&m0)
 	done := make(chan struct{})
-	timer := time.AfterFunc(hangTimeout, func() {
-		select {
-		case <-done:
-		default:
-			onHang()
-		}
-	})
 	t0 := time.Now()
+	cpu0 := cpuNow()
+	limit := hangCPU(res.Len)
+	go func() {
+		tick := time.NewTicker(250 * time.Millisecond)
+		defer tick.Stop()
+		for {
+			select {
+			case <-done:
+				return
+			case <-tick.C:
+				if used := cpuNow() - cpu0; used > limit || time.Since(t0) > hangWall {
+					res.CPUMillis = float64(used.Microseconds()) / 1000
+					res.Millis = float64(time.Since(t0).Microseconds()) / 1000
+					select {
+					case <-done:
+						return
+					default:
+					}
+					onHang()
+				}
+			}
+		}
+	}()
 	func() {
 		defer func() {
 			if p := recover(); p != nil {
@@ -380,23 +463,24 @@ func runCase(res *caseResult, f func(st *walkStats), onHang func()) {
 		}()
 		f(&res.Stats)
 	}()
+	cpu := cpuNow() - cpu0
 	el := time.Since(t0)
 	close(done)
-	timer.Stop()
 	runtime.ReadMemStats(&m1)
 	res.Millis = float64(el.Microseconds()) / 1000
+	res.CPUMillis = float64(cpu.Microseconds()) / 1000
 	res.Alloc = m1.TotalAlloc - m0.TotalAlloc
 	res.GorBefore = g0
-	res.GorAfter = settleGoroutines(g0)
+	var left string
+	res.GorAfter, left = settleGoroutines(before)
 	res.BudgetTime = float64(timeBudget(res.Len).Milliseconds())
 	res.BudgetMem = allocBudget(res.Len)
 	if res.Status == "" {
 		switch {
-		case res.GorAfter > g0:
+		case left != "":
 			res.Status = "leak"
-			// the leaked goroutines stay: measure the next cases against them
-			goroutineBase = res.GorAfter
-		case el > timeBudget(res.Len):
+			res.Leaked = left
+		case cpu > timeBudget(res.Len):
 			res.Status = "slow"
 		case res.Alloc > allocBudget(res.Len):
 			res.Status = "alloc"
